@@ -43,6 +43,7 @@ def run_static(prop, seed, tier, replay):
             "model_drift": len(drift),
             "drift_examples": [{"input": res["cases"][rid]["code"][:200], "why": d[:200]} for rid, d in drift[:3]]},
         "design_models": st.get("models", {}),
+        "pipeline_wall_s": round(st.get("wall", 0), 1),
         "states": st["tlc_distinct"] + sum(m["distinct"] for m in st.get("models", {}).values()),
         "transitions": st["tlc_states"] + sum(m["states"] for m in st.get("models", {}).values()),
         "traces_validated_against_impl": st["records"],
@@ -82,7 +83,7 @@ def run_dynamic(prop, seed, tier, replay):
             samples.append({"input": c["code"][:400], "scenario": c["scenario"], "mode": c["mode"], "verdict": v})
     st = res["stats"]
     cov = {"states": st["tlc_distinct"], "transitions": st["tlc_states"], "traces_validated_against_impl": st["records"],
-           "evaluations": st["records"], "samples": samples, "programs_executed": st["jobs"],
+           "evaluations": st["records"], "samples": samples, "programs_executed": st["jobs"], "pipeline_wall_s": round(st.get("wall", 0), 1),
            "rule": "programs (operation x context grid + seeded random) are rewritten by the real rewriter; input and output run in "
                    "V8 inside the effect-logging membrane under the default scenario and single-fault / re-entry / reassignment "
                    "scenarios (each external interaction answered nullish / throwing / a string / re-entering); every pair of runs "
@@ -120,7 +121,7 @@ def run_map(prop, seed, tier, replay):
     cov = {"states": st["tlc_distinct"] + sum(m["distinct"] for m in ms.values()),
            "transitions": st["tlc_states"] + sum(m["states"] for m in ms.values()),
            "traces_validated_against_impl": st["records"], "evaluations": st["cases"], "samples": samples,
-           "design_models": ms,
+           "design_models": ms, "pipeline_wall_s": round(st.get("wall", 0), 1),
            "rule": "design models: MC_Chain (chaining algorithm = exact composition on ALL small map pairs) and MC_Reader (full "
                    "product of reference kinds x parent answers x settings, every tuple replayed); observations: programs with "
                    "generator-known layouts (multi-line, CRLF, non-ASCII, comments, look-alike literals) x original maps of "
@@ -144,6 +145,7 @@ def run_session(prop, seed, tier, replay):
         samples.append({"instance": c["inst"], "file": c["file"], "code_class": c["codeclass"], "verdict": v})
     cov = {"states": st["tlc_distinct"], "transitions": st["tlc_states"], "traces_validated_against_impl": st["histories"],
            "evaluations": st["calls"], "samples": samples, "histories_enumerated_by_tlc": st["enumerated"],
+           "pipeline_wall_s": round(st.get("wall", 0), 1),
            "rule": "Session.tla enumerates every history of <= 3 (quick) / 4 (thorough) calls over 2 rewriter instances (same "
                    "source names, different hook names; one with a random prefix) x 2 files x 5 code classes (modified, not "
                    "modified, syntax error, refused, modified with external map); each is replayed in a long-lived native "
@@ -166,6 +168,7 @@ def run_package(prop, seed, tier, replay):
             samples.append({"history": res["cases"][rid]["history"], "event": res["cases"][rid]["event"], "verdict": v})
     cov = {"states": st["tlc_distinct"], "transitions": st["tlc_states"], "traces_validated_against_impl": st["histories"],
            "evaluations": st["events"], "samples": samples, "histories_enumerated_by_tlc": st["histories"],
+           "pipeline_wall_s": round(st.get("wall", 0), 1),
            "rule": "Package.tla (cache / text-in-use state machine of main.js CacheRewriter + js/source-map) is model-checked "
                    "(LookupUsesLatest) and TLC enumerates every history of <= 3 (quick) / 4 (thorough) steps over 2 files x 6 "
                    "versions (modified x2, not modified, syntax error, chained through an inline original map, eval frame) x "
